@@ -45,7 +45,10 @@ TreeTxt(t, pre, quoted) ==
    ELSE "{\n" \o Cat([i \in 1..Len(t.nodes) |-> RowTxt(t.nodes[i], LeafPre(pre, t), quoted)]) \o "}\n")
 QsTxt(qs) == Cat([i \in 1..Len(qs) |-> "QS " \o qs[i].name \o " { "
                    \o Join([j \in 1..Len(qs[i].pats) |-> Q(qs[i].pats[j])], ",") \o " }\n"])
-ModelTreeTxt(m, pre, quoted) == QsTxt(m.qs) \o "\n" \o Cat([i \in 1..Len(m.trees) |-> TreeTxt(m.trees[i], pre, quoted)])
+\* a model may carry `raw`: literal tree-section text that replaces the generated one (used by the fault model for
+\* structural defects; offsets are then computed for the defective text, so the defect reaches the tree converter)
+ModelTreeTxt(m, pre, quoted) == IF "raw" \in DOMAIN m THEN m.raw
+                                ELSE QsTxt(m.qs) \o "\n" \o Cat([i \in 1..Len(m.trees) |-> TreeTxt(m.trees[i], pre, quoted)])
 
 \* ---------- tokens
 U32(v) == [t |-> "u32", v |-> v]
